@@ -196,7 +196,17 @@ func (e *Entry) Modules() *Modules {
 	for e.Parent != nil {
 		e = e.Parent
 	}
-	return e.Node.(*Module).Modules
+	if m, ok := e.Node.(*Module); ok {
+		return m.Modules
+	}
+	// The tree was not built from a module (the entry of a grouping kept by
+	// StoreUses, say): the node it was built from still lies in one.
+	if e.Node != nil {
+		if m := RootNode(e.Node); m != nil {
+			return m.Modules
+		}
+	}
+	return nil
 }
 
 // IsDir returns true if e is a directory.
@@ -1406,7 +1416,7 @@ func (e *Entry) Find(name string) *Entry {
 					mod.NName(), e.Path()))
 				return nil
 			}
-			if m != e.Node.(*Module) {
+			if root, ok := e.Node.(*Module); !ok || m != root {
 				e = ToEntry(m)
 			}
 		}
@@ -1513,7 +1523,11 @@ func (e *Entry) InstantiatingModule() (string, error) {
 		return "", fmt.Errorf("entry %s had nil namespace", e.Name)
 	}
 
-	module, err := e.Modules().FindModuleByNamespace(n.Name)
+	ms := e.Modules()
+	if ms == nil {
+		return "", fmt.Errorf("entry %s is not part of a module", e.Name)
+	}
+	module, err := ms.FindModuleByNamespace(n.Name)
 	if err != nil {
 		return "", fmt.Errorf("could not find module %q when retrieving namespace for %s: %v", n.Name, e.Name, err)
 	}
